@@ -78,7 +78,7 @@ CHECKS = {
   text=("Lean theorems for every finite string of Unicode scalar values and every escape table satisfying the decidable side condition "
         "tableOK (re-proved by `decide` for the table regenerated from ESCAPE_SEQUENCES on each run); the executable model of "
         "encode_token/decode_token/quote/unquote is tied to the code by a differential correspondence stream (all short strings over the "
-        "structural alphabet, code points, biased random strings), and the oracle searches the real parser for a failing argument."),
+        "structural alphabet, code points, biased random strings), and the oracle searches the real parser for a failing argument. The embedding shapes include a query built step by step with its encoded form looked at in between."),
   note=("Trusted: Lean kernel (+propext/Quot.sound/Classical.choice), harness/extract.py, the correspondence harness, CPython str.replace/"
         "urllib.quote/unquote as modelled in LiquerModel/Text.lean (validated differentially, not proved), pyparsing for the embedding oracle."),
  ),
@@ -86,7 +86,7 @@ CHECKS = {
   text=("Full proof: toAbsolute_eq_posix (for every plain directory and every path of any length the model of _query_to_absolute equals "
         "POSIX normalisation with root-escape rejected), idempotence, and the frame theorems of Query.to_absolute. The model is tied to the "
         "code by exhaustive comparison over all directories of depth 0-4 x all paths of <= 5/6 components and generated query embeddings; "
-        "the oracle is posixpath.normpath."),
+        "the oracle is posixpath.normpath. The oracle also checks purity: to_absolute does not change the query object it is called on."),
   note=("Trusted: Lean kernel, the hand-written mirror LiquerModel/Paths.lean of ResourceQuerySegment._query_to_absolute/to_absolute and "
         "Query.to_absolute (tied by correspondence only), CPython posixpath as oracle. Directory argument assumed to consist of plain names."),
  ),
@@ -106,7 +106,7 @@ CHECKS = {
         "tree invariant over every well-formed history) and the refinement theorems mem_refines and file_refines (MemoryStore model and FileStore model = reference model on every "
         "well-formed history over plain keys, incl. recursive removal; keys() up to permutation), mem_never_fails / file_never_fails; proxy refinement. All 12 stacks (memory/file x plain, proxy, indexer, overlay(empty), mount, global default) are "
         "compared with the reference model after every operation of generated well-formed histories; the oracle evaluates the contract clauses "
-        "and pairwise agreement on the implementation."),
+        "and pairwise agreement on the implementation. Store histories use two data values of equal length, recycle the metadata read for a key in every third store(), reuse one metadata dictionary object in every other third, and include a key with a component that merely looks internal ('__x')."),
   note=("Trusted: Lean kernel; hand-written mirrors LiquerModel/StoreMem.lean, StoreFile.lean, StoreProxy.lean (tied by correspondence); md5 modelled as "
         "an injective function; JSON metadata text not modelled; POSIX directory operations at the granularity of the tree model."),
  ),
@@ -132,7 +132,7 @@ CHECKS = {
         "re-prefixed, unshadowed default-store keys), write exclusivity/frame, to_root_key for owned keys and through any depth of nested translating layers (to_root_key_chain, to_root_key_nested_reaches). "
         "to_root_key_reaches_statement without the ownership hypothesis is false (an inner mount shadows the root key) and kept statement-only with its refutation. Correspondence: all mount tables <= 3 mounts "
         "over {a,a/b,c,c/d,ab,c/dd} (names that extend each other as text but not as paths) x {memory,file} x default {none,empty,populated} with generated histories, nested mount-point stores of depth 2-3, a "
-        "mounted RecipeSpecStore (recipes_key); oracle = union of the parts."),
+        "mounted RecipeSpecStore (recipes_key); oracle = union of the parts. The nested probe also mounts the same store twice at one key and checks is_dir / contains / listdir at every inner mount point (repo fix a6dff51)."),
   note=("Trusted: Lean kernel; LiquerModel/StoreMount.lean mirror of MountPointStore/PrefixStore (as fixed by the D7a-g commits); a recursive removedir reaching a mount point deletes what is below and then "
         "raises (modelled as it is)."),
  ),
@@ -141,7 +141,7 @@ CHECKS = {
         "extension readable; recorded identifier selects a decoder for every writable+readable extension), c11_key_roundtrip (JSON key escaping for "
         "every string), c11_djson (line-oriented dictionary framing for any dictionary under the element law), c11_register_selects / _frame / _history (after any "
         "history of StateTypesRegistry.register calls the last registration is consistent: type name and recorded identifier select the same object). The codecs themselves (json, pickle, "
-        "pandas/pyarrow) enter as explicit CodecLaw hypotheses and are validated differentially only (partial)."),
+        "pandas/pyarrow) enter as explicit CodecLaw hypotheses and are validated differentially only (partial). A further probe registers state types on the GLOBAL registry after values have been decoded (late plug-in) and round-trips through encode_state_data / decode_state_data."),
   note=("Trusted: Lean kernel; extract.py probing of writes/reads sets on sample values; third-party codecs json / pickle / pandas / polars / base64 (hypotheses of the theorems); the text and bytes codecs are LiQuer's own and proved (c11_text_codec_law, c11_bytes_codec_law, c11_own_roundtrip: strict UTF-8, no hypothesis left)."),
  ),
  "C20": dict(
@@ -157,7 +157,7 @@ CHECKS = {
         "eval_obs_is_ref_wf (the refinement for any closed class of wfTop queries with no text hypothesis left); the model is tied "
         "to the code by comparing full outcomes and call logs of generated queries (typed arguments, defaults, variadic, links to depth 3, namespaces, state "
         "variables, sub-evaluations, input values, extra parameters) with the evaluator model and with the Lean reference interpretation; the oracle is an "
-        "independent Python fold over the parsed query."),
+        "independent Python fold over the parsed query. An implementation-side oracle family evaluates queries with a command that returns its own State object (state variables, namespaces and flags set to its left must reach the steps to its right)."),
   note='Trusted: Lean kernel; the hand-written evaluator model LiquerModel/Eval.lean + Vocab.lean + Value.lean and the reference interpretation Ref.lean (tied to Context.evaluate/evaluate_action/evaluate_parameter/apply, parse_argv and the argument parsers by differential correspondence over generated queries and histories, not proved about Python); command signatures regenerated from the live registry; vocabulary semantics written twice; the cache is the KV specification at evaluator states (back-ends tied to it by C13); oracle harness/oracle_ref.py.',
  ),
  "C04": dict(
@@ -176,7 +176,7 @@ CHECKS = {
  "C05": dict(
   text=("served_is_fresh (= Sound over histories) and not_admitted (failed, volatile, cache-disabled results and evaluations with injected input never gain "
         "data) in Props/C05.lean as far as discharged; correspondence as C04 with the complete data-bearing cache content compared after every operation; the "
-        "oracle lists the cache after every operation and re-evaluates every served key without cache."),
+        "oracle lists the cache after every operation and re-evaluates every served key without cache. Oracle-only families (outside the model's command effects / value domain): in-place mutators on dictionaries, a command that switches caching off and then evaluates a sub-query, a command that evaluates a sub-query ON its input (evaluate_on), evaluations with a description."),
   note='Trusted: Lean kernel; the hand-written evaluator model LiquerModel/Eval.lean + Vocab.lean + Value.lean and the reference interpretation Ref.lean (tied to Context.evaluate/evaluate_action/evaluate_parameter/apply, parse_argv and the argument parsers by differential correspondence over generated queries and histories, not proved about Python); command signatures regenerated from the live registry; vocabulary semantics written twice; the cache is the KV specification at evaluator states (back-ends tied to it by C13); oracle harness/oracle_ref.py.',
  ),
  "C06": dict(
@@ -210,7 +210,7 @@ CHECKS = {
         "temporary file + atomic replace, metadata last): for every crash point and every prefix of every write, a fresh read yields miss, the old or the new "
         "entry, and other keys are unaffected (16 theorems). Correspondence: every file-system operation boundary of the real operations is crashed in a "
         "subprocess (os._exit) and a fresh process reads; exhaustive in both tiers. Partial: torn sectors, fsync/write-back ordering and directory-entry "
-        "durability are below the model."),
+        "durability are below the model. A further oracle-only scenario crashes twice in a row (a remove that died after its first file operation, then a store crashed at every point)."),
   note=("Trusted: Lean kernel; LiquerModel/CrashSteps.lean step lists (tied by the crash replay); POSIX rename atomicity; the OS applies completed operations in order."),
  ),
 }
